@@ -19,6 +19,8 @@ RECOMPILED = ENV_ON.compile(QTEXT)
 SAME_QUERY = RECOMPILED == C_ON and str(RECOMPILED) == str(C_ON) and hash(RECOMPILED) == hash(C_ON)
 SCHED = P.get("sched", 4)
 MAXN = P.get("maxn", 2)
+TAKE = P.get("take")
+SFIX = P.get("sfix")
 OI = Optional[int]
 KT = {"oi": Optional[int], "nbi": Union[None, bool, int]}[P.get("kleaf", "oi")]
 
@@ -85,6 +87,7 @@ def interleave(k1: OI, a1: int, n1: int, k2: int, a2: OI, n2: int, s0: bool, s1:
     """Two lazy iterators from one compiled query over different documents, advanced under a symbolic schedule.
 
     pre: 0 <= n1 <= MAXN and 0 <= n2 <= MAXN
+    pre: SFIX is None or (s0 == SFIX[0] and s1 == SFIX[1])
     post: _
     """
     # the first document always has two candidates: a value cached while the other iterator ran is used for the second
@@ -114,3 +117,35 @@ def interleave(k1: OI, a1: int, n1: int, k2: int, a2: OI, n2: int, s0: bool, s1:
     g1.extend(it1)
     g2.extend(it2)
     return ok(why(sig(g1) == e1, "first iterator", sig(g1), e1) and why(sig(g2) == e2, "second iterator", sig(g2), e2))
+
+
+def partial(k1: OI, a1: int, n1: int, k2: int, a2: OI, n2: int, take: int, viamatch: bool) -> bool:
+    """An evaluation left unfinished (match(), or an iterator advanced `take` times and abandoned) leaves nothing behind:
+    the next evaluation of the same compiled query, on another document, equals that of a fresh compile.
+
+    pre: 0 <= n1 <= MAXN and 0 <= n2 <= MAXN
+    pre: 0 <= take <= 4 and (TAKE is None or (viamatch if TAKE < 0 else (take == TAKE and not viamatch)))
+    post: _
+    """
+    d1 = mkdoc(k1, a1, 1, a1, 2 + n1)
+    d2 = mkdoc(k2, a2, k2, 0, 1 + n2)
+    c1, c2 = {"k": k1, "xs": []}, {"k": k2, "xs": [1]}
+    e1 = sig(C_OFF.finditer(d1, filter_context=c1))
+    e2 = sig(C_OFF.finditer(d2, filter_context=c2))
+    if viamatch:
+        m = C_ON.match(d1, filter_context=c1)
+        if not why((m is None) == (not e1) and (m is None or (m.path, m.obj) == e1[0]), "match() is not the first match"):
+            return ok(False)
+    else:
+        it1 = iter(C_ON.finditer(d1, filter_context=c1))
+        got = []
+        for i in range(4):
+            if i < take:
+                m = _next(it1)
+                if m is not None:
+                    got.append(m)
+        if not why(sig(got) == e1[: len(got)], "prefix", sig(got), e1):
+            return ok(False)
+    r2 = sig(C_ON.finditer(d2, filter_context=c2))
+    r1 = sig(C_ON.finditer(d1, filter_context=c1))
+    return ok(why(r2 == e2, "evaluation after an unfinished one", r2, e2) and why(r1 == e1, "re-evaluation after an unfinished one", r1, e1))
